@@ -1,21 +1,9 @@
-(* Extract.v — extraction of the executable models to OCaml.
+(* Extract.v — extraction of the case runner to OCaml.
    ExtrOcamlBasic only (bool, option, unit, list, prod, sumbool, sumor -> OCaml's own types);
-   N, Z, positive, nat stay the extracted inductive types.  No Extract Constant. *)
+   N, Z, positive, nat stay the extracted inductive types.  No Extract Constant, no Extract Inductive.
+   Everything the runner does between the tokenizer and the printer (extract/main.ml) is Run.run_case:
+   the decoders / encoders of the case language and the model functions they call are extracted with it. *)
 From Coq Require Import Extraction ExtrOcamlBasic.
-From BedV Require Import Base LapperModel AlgebraModel GMapModel TextModel ExtSortModel BincodeModel BufModel.
+From BedV Require Import Run.
 Extraction Language OCaml.
-Extraction "model.ml"
-  (* numbers *) N.of_nat N.to_nat N.add N.mul N.sub N.div N.modulo N.eqb N.ltb N.leb N.compare
-  Z.of_N Z.to_N Z.add Z.opp Z.ltb Z.eqb Z.compare
-  (* lapper *) lnew linsert lmerge lset_cov lcov lfind lseek lcount lcount_orig
-  lunion_intersect ldepth lis_empty llen iv_eq iv_cmp
-  (* algebra *) blen bcompare boverlap bn_overlap split_by_len rsplit_by_len merge_groups merge_sorted_bed merge_sorted_bedgraph bset_chrom bset_start bset_end to_genomic_range
-  (* maps and coverage *) gcollect ginsert gfind gis_overlapped glen giter
-  iset_new iset_len iset_get iset_find_full iset_find_index iset_find imap_new imap_find
-  cov_new cov_step scov_step smap_as_vec bcov_new bcov_step bcov_regions sbcov_new sbcov_step sb_get_region sb_get_chrom smap_get
-  (* text *) show_N show_Z parse_uint parse_int show_grange pretty_show show_bed show_npeak show_bpeak show_bgraph
-  parse_grange parse_bed parse_npeak parse_bpeak parse_bgraph score_try_from score_from_str p_score show_optional_fields strand_from_str show_strand
-  reader_items write_record bytes_eqb
-  (* extsort *) frames dump chunk_read chunk_oracle merger_calls merge_all merge_oracle ext_sort_isort tmp_ok tmp_open_ok
-  (* bincode record codecs, BufWriter/BufReader stack *) ser_grange de_grange ser_bedrec de_bedrec ser_npeak de_npeak ser_bpeak de_bpeak
-  ser_bgraph de_bgraph de_all dump_buffered chunk_read_buffered.
+Extraction "model.ml" run_case.
